@@ -277,15 +277,24 @@ def cfg_for(s, variant=None):
 _VEC = {v: np.asarray(v, dtype=np.float32) for v in (E1, E2, E12, Z, NE1)}
 
 
-def episodes_of(mem):
-    """mem = tuple of prototype indices (insertion order); ids in reverse insertion order"""
+def episodes_of(mem, idkind="str"):
+    """mem = tuple of prototype indices (insertion order); ids in reverse insertion order.
+    idkind "str": the id is stored as the string "e<n>"; idkind "int": the id is STORED as the integer n (a counter /
+    row id) - a hit is identified by str(id) everywhere in the observation, so the model names it "<n>"."""
     n = len(mem)
     out = []
     for pos, pi in enumerate(mem):
         owner, age, cluster, imp, vec, text = ALL_PROTOS[pi]
-        out.append({"id": "e%d" % (n - pos), "owner": owner, "age": age, "cluster": cluster, "imp": imp,
-                    "vec": list(vec), "text": text})
+        e = {"id": ("e%d" if idkind == "str" else "%d") % (n - pos), "owner": owner, "age": age, "cluster": cluster,
+             "imp": imp, "vec": list(vec), "text": text}
+        if idkind != "str":
+            e["idtype"] = idkind
+        out.append(e)
     return out
+
+
+def _stored_id(e):
+    return int(e["id"]) if e.get("idtype") == "int" else e["id"]
 
 
 def _vecf(v):
@@ -308,8 +317,9 @@ def build_state(eps, hybrid):
     store = InMemoryGraphStore()
     store.upsert_nodes("g1", [Node(id=i, label=l, attrs={}) for i, l in NODES])
     idx = InMemoryIndex()
+    int_ids = any(e.get("idtype") == "int" for e in eps)
     for e in eps:
-        d = {"id": e["id"], "owner": e["owner"], "text": e["text"],
+        d = {"id": _stored_id(e), "owner": e["owner"], "text": e["text"],
              "vec_full": np.array(_vecf(e["vec"]), dtype=np.float32)}
         if e["age"] is not None:
             d["ts"] = _iso(e["age"])
@@ -326,6 +336,8 @@ def build_state(eps, hybrid):
         edges = {}
         nodes = {}
         for a, b, w in GEL_SETS[hybrid]:
+            if int_ids:
+                a, b = a[1:], b[1:]  # the GEL names an episode by str(id)
             a, b = (a, b) if a <= b else (b, a)
             key = "%s%s%s" % (a, ARROW, b)
             edges[key] = {"id": key, "src": a, "dst": b, "rel": "coact", "weight": w, "updated_at": None, "attrs": {}}
@@ -720,15 +732,22 @@ def memories(max_n):
 
 
 ALL_VARIANTS = ("parallel", "warm-cache")
+# the settings a shard receives from the fan-out (the rest is applied after the merge)
+SHARD_DIMS = ("k", "thr", "tiers", "rd", "tm", "scope")
+
+
+def _pair_on_shard_path(s, thorough):
+    """2-deviation settings tried on the shard path: thorough all, quick those whose deviations are both shard inputs"""
+    return thorough or all(s[d] == BASE[d] for d in DIM_NAMES if d not in SHARD_DIMS)
 
 
 def _worker(chunk, st: Stats, plan, xvariants):
-    """chunk: list of (mem tuple, maxdev); xvariants: the other execution paths tried for memories of the
+    """chunk: list of (mem tuple, maxdev, idkind); xvariants: the other execution paths tried for memories of the
     degenerate-vector leg (ordinary memories: all of ALL_VARIANTS)"""
     _quiet_numpy()
-    setts = {d: list(settings(d)) for d in sorted({d for _, d in chunk})}
-    for mem, maxdev in chunk:
-        eps = episodes_of(mem)
+    setts = {d: list(settings(d)) for d in sorted({d for _, d, _k in chunk})}
+    for mem, maxdev, idkind in chunk:
+        eps = episodes_of(mem, idkind)
         variants = xvariants if any(pi in X_INDEX for pi in mem) else ALL_VARIANTS
         for q in QUERIES:
             memo = {}
@@ -748,12 +767,18 @@ def _worker(chunk, st: Stats, plan, xvariants):
                 res = check(eps, q, s, getres, info)
                 st.add("validated")
                 case = {"episodes": eps, "query": q, "setting": s_json(s)}
-                if not res and n_dev(s) <= 1 and len(eps) >= 1 and variants:
+                if not res and len(eps) >= 1 and variants and (n_dev(s) <= 1 or (len(eps) == 2 and _pair_on_shard_path(s, plan[0][1] == 2))):
                     # the same input through the other execution paths of the stage must give the same answer
+                    # (<=1 deviation: every path; 2 deviations: the shard path on the 2-episode memories - a setting
+                    # that reaches a shard only together with a second one, e.g. the window with the tier list)
                     plain = getres(s)
+                    tried = []
                     for variant in variants:
                         if variant == "parallel" and len(eps) < 2:
                             continue
+                        if n_dev(s) > 1 and variant != "parallel":
+                            continue
+                        tried.append(variant)
                         got = execute(eps, q, s, variant)
                         st.add("transitions")
                         st.add("variant_executions")
@@ -761,7 +786,7 @@ def _worker(chunk, st: Stats, plan, xvariants):
                             res.append(("variant:%s:differs-from-plain:scope=%s" % (variant, s["scope"][0]),
                                         "t2_semantic via %s path returned %s, plain sequential cache-off path %s; mem=%s q=%r setting{%s}" % (
                                             variant, W.jd(got), W.jd(plain), _fmt_eps(eps), q, _fmt_s(s))))
-                    case["variants"] = list(variants)
+                    case["variants"] = tried
                 for sig, what in res:
                     st.violation(sig, what, case)
                 if res:
@@ -802,6 +827,9 @@ def run(run: Run) -> None:
     all_s = list(settings(maxdev_all))
     for s in all_s:
         cfg_for(s)
+        cfg_for(s, "parallel")
+        if n_dev(s) <= 1:
+            cfg_for(s, "warm-cache")
     cfg_digest0 = W.jd({repr(k): v for k, v in _CFG.items()})
     # harness determinism: the same execution twice must give the same observation
     probe_eps = episodes_of((0, 1, 5))
@@ -832,7 +860,16 @@ def run(run: Run) -> None:
                         n_x += mem not in budget
                         budget[mem] = d
     for mem in sorted(budget, key=lambda m: (len(m), m)):
-        items.append((mem, budget[mem]))
+        items.append((mem, budget[mem], "str"))
+    # id-type leg: the same memories with the ids STORED as integers (a hit is named by str(id) throughout)
+    iplan = (3, 1) if run.thorough else (2, 1)
+    n_i = 0
+    for mem in memories(iplan[0]):
+        if len(mem) >= 1:
+            items.append((mem, iplan[1], "int"))
+            n_i += 1
+    run.notes["memories_with_integer_ids"] = n_i
+    run.notes["iplan"] = "memories<=%d (ids stored as int) x deviations<=%d" % iplan
     # heavy items first for balance
     items.sort(key=lambda it: (-it[1], -len(it[0]), it[0]))
     run.notes["memories"] = len(items)
@@ -849,17 +886,20 @@ def run(run: Run) -> None:
     run.rule = ("every multiset of <=N episodes over %d prototypes (ages 1 d, 30 d = window boundary, 30 d 6 h = sub-day "
                 "past the boundary, 31 d, none) x 2 queries x every setting with <=D deviations over "
                 "%d dimensions (%s); plan %s; plus the degenerate-vector leg: one of %d episodes whose stored vector has a "
-                "NaN / +inf / -inf component together with every ordinary memory, plan %s; states = (memory, query, "
+                "NaN / +inf / -inf component together with every ordinary memory, plan %s; plus the id-type leg: the "
+                "ordinary memories with the episode ids stored as integers instead of strings, plan %s; states = (memory, query, "
                 "setting) inputs, transitions = executions of the "
                 "real t2_semantic, validated = outcomes compared with the reference model + envelope; non-trivial = "
                 ">=2 hits returned or >=1 stored episode not returned"
                 % (len(PROTOS), len(DIMS), ", ".join("%s:%d" % (d, len(v)) for d, v in DIMS), run.notes["plan"],
-                   len(PROTOS_X), run.notes["xplan"]))
+                   len(PROTOS_X), run.notes["xplan"], run.notes["iplan"]))
     run.assume("the reference model is compared on the sequential, cache-off path; for every input with <=1 deviation the "
                "parallel shard path (2 workers) and the cache-on path after the same query by another agent must return the "
-               "same observation as that path (full exploration of those paths is C09's and C05's; memories of the "
+               "same observation as that path, and so must the parallel shard path for every input with 2 deviations on a "
+               "2-episode memory (%s) (full exploration of those paths is C09's and C05's; memories of the "
                "degenerate-vector leg: %s); embed-store reader and LanceDB backend are outside this check"
-               % ("parallel path only" if xvariants else "sequential path only in this tier"))
+               % ("all pairs" if run.thorough else "quick: pairs over the settings handed to a shard - " + ", ".join(SHARD_DIMS),
+                  "parallel path only" if xvariants else "sequential path only in this tier"))
     run.assume("a zero vector has cosine 0 with every query (the index's convention); cosines of the alphabet are "
                "exactly -1, -0.7071, 0, 0.7071 or 1, thresholds hit only the exact values -1 and 0")
     run.assume("episode without timestamp: inside or outside the exact-tier window are both accepted (the statement is "
@@ -874,6 +914,8 @@ def run(run: Run) -> None:
                "vectors that overflow float32 when normalised are outside the alphabet")
     run.assume("exact_recent_days=0 is accepted as 'window off' or as 'age<=0 only'; ties between cluster centroids at "
                "the top-m cut may be resolved either way; the tie-break among clusters is not part of the statement")
+    run.assume("episode ids are strings, or (id-type leg) integers 1..N that the stage names by str(id); the same clauses "
+               "and the same reference model apply to both; other id types (UUID objects, ...) are outside the alphabet")
     run.assume("T1 produced no deltas (query text = user text); agent_id is always present on the context")
     run.assume("order clause is asserted on settings without rerank layers (the layers are free to permute); with a layer "
                "on, the id multiset is compared with the same setting with that layer off")
